@@ -10,7 +10,7 @@ ID = "C15"
 LEVEL = "exploration"
 RULE = ("cases = seeded well-formed APIs (several services, keyword-named RPCs, reserved-word fields, request messages whose field numbers do "
         "not follow declaration order) x transports {grpc, rest, grpc+rest} x {plain, selective generation with omitted methods kept as "
-        "internal}; gapic_metadata.json is compared with the input (services, RPCs, client kinds implied by the transports, packages) and "
+        "internal — an RPC name shared by two services is always public in one and internal in the other}; gapic_metadata.json is compared with the input (services, RPCs, client kinds implied by the transports, packages) and "
         "with the imported package (each libraryClient is a class, each listed method an attribute of it); METHOD_TO_PARAMS of the emitted "
         "fix-up script is read with ast.literal_eval and compared with 'required fields first, then declaration order'; distinct = distinct "
         "(shape-tag set, transport, internal mode) that held")
@@ -24,7 +24,8 @@ TRANSPORTS = ["grpc", "rest", "grpc+rest"]
 def floors(tier):
     k = 1 if tier == "quick" else 8
     return {"libraries": 30 * k, "metadata_rpc_entries": 700 * k, "methods_resolved": 700 * k, "fixup_rows": 300 * k, "internal_mode": 8 * k,
-            "out_of_order_rows": 20 * k, "keyword_rpcs": 20 * k}
+            "out_of_order_rows": 20 * k, "keyword_rpcs": 20 * k,
+            "shared_rpc_name_public_in_one_service_internal_in_other": 2 * k}
 
 
 def plan(seed, tier):
@@ -35,6 +36,12 @@ def plan(seed, tier):
 def build_api(case):
     rng = random.Random(case["seed"])
     api = apigen.wellformed(rng, "k%d" % (case["seed"] % 100000))
+    if case["internal"] and (case["seed"] // 4) % 2 == 0:
+        # every other internal-mode case has an RPC name shared by two services
+        for _ in range(12):
+            if "same-rpc-name-two-services" in api.tags:
+                break
+            api = apigen.wellformed(rng, "k%d" % (case["seed"] % 100000))
     api.options = [f"transport={case['transport']}", "metadata", "autogen-snippets=false"]
     return api, rng
 
@@ -44,6 +51,7 @@ def run_case(case):
     api, rng = build_api(case)
     req0 = api.request(scratch)
     kept = None
+    split_twins = False
     if case["internal"]:
         allm = [f"{p.package}.{s.name}.{m.name}" for p, s, m in refs.target_methods(req0)]
         kept = set(rng.sample(allm, max(1, len(allm) // 3)))
@@ -53,6 +61,7 @@ def run_case(case):
             by_rpc.setdefault(fq.rsplit(".", 1)[1], []).append(fq)
         for twins in by_rpc.values():
             if len(twins) > 1:
+                split_twins = True
                 pub = rng.randrange(len(twins))
                 for i, fq in enumerate(twins):
                     (kept.add if i == pub else kept.discard)(fq)
@@ -75,6 +84,8 @@ def run_case(case):
 
     if case["internal"]:
         bump("internal_mode")
+        if split_twins:
+            bump("shared_rpc_name_public_in_one_service_internal_in_other")
     root = apigen.lib_root(api.info, api.options)
     mpath = root.replace(".", "/") + "/gapic_metadata.json"
     if mpath not in files:
